@@ -271,7 +271,7 @@ func (cs *ContractSet) loadContractFile(path, pkgName string) error {
 				return fail("modifies outside func")
 			}
 			cur.HasModifies = true
-			for _, m := range strings.Split(rest, ",") {
+			for _, m := range splitTopLevel(rest) {
 				m = strings.TrimSpace(m)
 				if m != "" && m != "nothing" {
 					cur.Modifies = append(cur.Modifies, m)
@@ -326,6 +326,26 @@ func (cs *ContractSet) loadContractFile(path, pkgName string) error {
 		}
 	}
 	return nil
+}
+
+// splitTopLevel splits on commas that are not inside parentheses or brackets.
+func splitTopLevel(s string) []string {
+	var out []string
+	depth, start := 0, 0
+	for i := 0; i < len(s); i++ {
+		switch s[i] {
+		case '(', '[':
+			depth++
+		case ')', ']':
+			depth--
+		case ',':
+			if depth == 0 {
+				out = append(out, s[start:i])
+				start = i + 1
+			}
+		}
+	}
+	return append(out, s[start:])
 }
 
 func parseClause(s, file string, line int) (Clause, error) {
